@@ -90,7 +90,12 @@ class StubLedger:
     def hash160_to_address(self, h):
         return h
 
+    observed_tx = None           # another task of the event loop that looks at the transaction while sign() waits for the key (db round trip)
+    observed = None
+
     async def get_private_key_for_address(self, wallet, address):
+        if self.observed_tx is not None:
+            self.observed.append((self.observed_tx.id, self.observed_tx.size))
         for k in self.keys:
             if k.pubkey_hash == address:
                 return k
@@ -195,10 +200,13 @@ def tx_sign(vm, n_in, n_out):
         changed = vm.new_int('changed_amount', 0, 2 ** 62)
         tx.outputs[0].amount = changed
         outs[0] = (changed, outs[0][1])
+    if vm.new_bool('observer_reads_id_and_size_while_signing_waits_for_a_key'):
+        ledger.observed_tx, ledger.observed = tx, []
     try:
         vm.await_(tx.sign([account]))
     except Exception as e:
         return 'VIOLATION: Transaction.sign raised %s' % type(e).__name__
+    ledger.observed_tx = None
     signed = [e for e in LOG if e[1] == 'tx']
     if len(signed) != n_in:
         return 'VIOLATION: %d signatures were made for %d inputs' % (len(signed), n_in)
